@@ -108,10 +108,44 @@ def identity_records(chk: Check, wd, tier: str, seed: int):
             identities_judged=sum(len(r["ids"]) for r in recs))
 
 
+def directed_histories(tier: str):
+    """histories a random walk rarely produces: one address claims, sends, claims another NAME, sends again (every
+    ordered pair of NAMEs, i.e. every change of manufacturer), two addresses trading NAMEs, data before the first
+    claim with the discovery window closing in between - under every manufacturer list, with and without network map,
+    with the claim PGN filtered or not"""
+    def frames(s, q):
+        return [{"k": "frame", "src": s, "seq": q, "fc": i, "len": 14, "chunk": [1]} for i in range(3)]
+
+    def single(p, s):
+        return {"k": "single", "pgn": p, "src": s, "tok": []}
+    hists = []
+    for n1 in (1, 2, 3):
+        for n2 in (1, 2, 3):
+            hists.append([{"k": "claim", "src": 1, "name": n1}, single("A", 1), {"k": "claim", "src": 1, "name": n2}, single("A", 1),
+                          single("B", 1)] + frames(1, 1) + [{"k": "claim", "src": 1, "name": n1}, single("B", 1)])
+            hists.append([{"k": "claim", "src": 1, "name": n1}, {"k": "claim", "src": 2, "name": n2}, single("A", 1), single("A", 2),
+                          {"k": "claim", "src": 1, "name": n2}, {"k": "claim", "src": 2, "name": n1}, single("B", 1), single("B", 2)]
+                         + frames(2, 2))
+            hists.append([single("A", 1), {"k": "claim", "src": 2, "name": n1}, single("A", 2), {"k": "window"}, single("A", 1),
+                          {"k": "claim", "src": 1, "name": n2}, single("B", 1), single("A", 2)])
+    cfgs = []
+    for mm, mf in (("none", []), ("exclude", ["m1"]), ("exclude", ["m2"]), ("include", ["m1"]), ("include", ["m2"])):
+        for nm in (False, True):
+            for mode, nums in (("none", []), ("exclude", ["CLAIM"])):
+                cfgs.append({"mode": mode, "nums": nums, "ids": [], "mfrMode": mm, "mfrs": mf, "netmap": nm})
+    if tier == "selftest":
+        cfgs = cfgs[::3]
+    out = []
+    for cfg in cfgs:
+        for h in hists:
+            out.append([("Init", {"cfg": cfg, "ev": {"k": "init"}})] + [("Directed", {"cfg": cfg, "ev": e}) for e in h])
+    return out
+
+
 def bind(chk: Check, tier: str, seed: int):
     wd = workdir(PROP)
     identity_records(chk, wd, tier, seed)
-    traces, outs, drops = c10.run_traces(chk, wd, PROP, tier, seed, classify)
+    traces, outs, drops = c10.run_traces(chk, wd, PROP, tier, seed, classify, directed=directed_histories(tier))
     with_ident = sum(1 for t in traces for e in t["evs"] if e["obsU"]["ret"] == "msg" and e["obsU"]["ident"] not in (0,))
     inside = sum(1 for t in traces for i, e in enumerate(t["evs"][1:], 1)
                  if e["in"]["k"] == "claim" and any(x["in"]["k"] == "frame" and x["in"]["src"] == e["in"]["src"] for x in t["evs"][max(0, i - 3):i]))
